@@ -362,6 +362,20 @@ def pack_union(
                     f"if value.__class__ {packer_arg_type_check}:"
                 ):
                     lines.append(f"return {packer}")
+            elif all(
+                is_dataclass(get_type_origin(t))
+                for t in packer_arg_types[packer]
+            ):
+                # a dataclass member is packed by the method of the instance
+                # itself, so only instances of these members may take it
+                with lines.indent(
+                    "if isinstance(value, "
+                    f"({', '.join(packer_arg_type_names)},)):"
+                ):
+                    with lines.indent("try:"):
+                        lines.append(f"return {packer}")
+                    with lines.indent("except Exception:"):
+                        lines.append("pass")
             else:
                 with lines.indent("try:"):
                     lines.append(f"return {packer}")
